@@ -44,6 +44,20 @@ def main():
         if e["texts"]:
             entries.append(e)
             metas.append(meta)
+    # routines PyTeal-side declared with the ABI flavour / return type anytype (recursion, private variables): harness/handprogs.py
+    import handprogs
+    for name, recipe, rs in handprogs.family(tier):
+        recipe["big"] = name
+        progs.append(recipe)
+        ncompiled += sum(1 for r in rs if "teal" in r)
+        for r in rs:
+            if "teal" not in r:
+                chk.report("C02/does-not-compile/%s/%s" % (name, r["err"]), "%s at %s: %s" % (name, pipeline.settings_tag(r["st"]), r.get("msg")), {"what": name, "st": r["st"]})
+        e, meta = pipeline.make_entry(len(entries) + 1, recipe, rs, pipeline.make_cx(recipe))
+        e["strict"] = 1
+        if e["texts"]:
+            entries.append(e)
+            metas.append(meta)
     t2 = time.time()
     verdicts, tres, errors = pipeline.run_refine(entries, "c02", max_steps=3000)
     t3 = time.time()
